@@ -45,8 +45,12 @@ Proof.
     inversion E; reflexivity.
 Qed.
 
-Lemma take_blk_subs : forall st t st', take_blk st t = Some st' -> subs st' = subs st.
-Proof. intros st t st' E. unfold take_blk in E. destruct (blk st); inversion E; reflexivity. Qed.
+Lemma with_node_subs : forall st ty st1 n, with_node st ty = Some (st1, n) -> subs st1 = subs st.
+Proof.
+  intros st ty st1 n E. unfold with_node in E. destruct (lookup st ty) as [sl m] eqn:El.
+  destruct (nth_error (nodes sl) m); inversion E; subst. cbn.
+  unfold lookup in El. destruct (nth_error (bmap st) ty) as [[k|]|]; inversion El; reflexivity.
+Qed.
 
 Lemma lookup_subs : forall st ty, subs (fst (lookup st ty)) = subs st.
 Proof. intros st ty. unfold lookup. destruct (nth_error (bmap st) ty) as [[n|]|]; reflexivity. Qed.
@@ -98,11 +102,10 @@ Proof.
   destruct (nth_error (emitters st) j) as [m|]; [|discriminate].
   destruct (mnew m) as [|[|[|[|?]]]].
   - inversion E; subst; exact H.
-  - apply otau_Some in E. destruct E as [E _]. apply option_map_Some in E. destruct E as [x [E ->]].
-    cbn. rewrite (take_blk_subs _ _ _ E). exact H.
-  - pose proof (lookup_subs st (mty m)) as Hl. destruct (lookup st (mty m)) as [st1 n]. cbn in Hl.
-    destruct (nth_error (nodes st1) n) as [nd|]; [|discriminate].
-    destruct (holder nd); [discriminate|]. inversion E; subst. cbn. rewrite Hl. exact H.
+  - destruct (with_node st (mty m)) as [[st1 n]|] eqn:Ew; [|discriminate]. inversion E; subst. cbn.
+    rewrite (with_node_subs _ _ _ _ Ew). exact H.
+  - destruct (nth_error (nodes st) (mnode m)) as [nd|]; [|discriminate].
+    destruct (holder nd); [discriminate|]. inversion E; subst. exact H.
   - inversion E; subst; exact H.
   - discriminate.
 Qed.
@@ -115,8 +118,7 @@ Proof.
   - destruct (Nat.eqb (mnew m) 4); inversion E; subst; exact H.
   - destruct (mclosed m); inversion E; subst; exact H.
   - destruct (nth_error (nodes st) (mnode m)); inversion E; subst; exact H.
-  - apply otau_Some in E. destruct E as [E _]. apply option_map_Some in E. destruct E as [x [E ->]].
-    cbn. rewrite (take_blk_subs _ _ _ E). exact H.
+  - inversion E; subst; exact H.
   - apply otau_Some in E. destruct E as [E _]. apply option_map_Some in E. destruct E as [x [E ->]].
     cbn. rewrite (try_drop_subs _ _ _ E). exact H.
   - inversion E; subst; exact H.
@@ -129,13 +131,12 @@ Proof.
   destruct (nth_error (subs st) s) as [c|] eqn:Ec; [|discriminate].
   destruct (spc c) eqn:Ep.
   - destruct (styps c); inversion E; subst; cbn; (apply Forall_upd; [exact H|same_sub Ec]).
-  - apply otau_Some in E. destruct E as [E _]. apply option_map_Some in E. destruct E as [x [E ->]].
-    cbn. rewrite (take_blk_subs _ _ _ E). apply Forall_upd; [exact H|same_sub Ec].
+  - destruct (styps c) as [tys|]; [|discriminate]. destruct (nth_error tys i) as [ty|]; [|discriminate].
+    destruct (with_node st ty) as [[st1 n]|] eqn:Ew; [|discriminate]. inversion E; subst. cbn.
+    rewrite (with_node_subs _ _ _ _ Ew). apply Forall_upd; [exact H|same_sub Ec].
   - destruct (styps c) as [tys|]; [|discriminate].
-    destruct (nth_error tys i) as [ty|]; [|discriminate].
-    pose proof (lookup_subs st ty) as Hl. destruct (lookup st ty) as [st1 n]. cbn in Hl.
-    destruct (nth_error (nodes st1) n) as [nd|]; [|discriminate].
-    destruct (holder nd); [discriminate|]. inversion E; subst. cbn. rewrite Hl.
+    destruct (nth_error (nodes st) n) as [nd|]; [|discriminate].
+    destruct (holder nd); [discriminate|]. inversion E; subst. cbn.
     apply Forall_upd; [exact H|]. destruct (keep nd); [destruct (nlast nd)|]; same_sub Ec.
   - inversion E; subst; cbn; (apply Forall_upd; [exact H|same_sub Ec]).
   - destruct (wpend (wild st)); [discriminate|]. inversion E; subst; cbn; (apply Forall_upd; [exact H|same_sub Ec]).
@@ -176,8 +177,7 @@ Proof.
   - destruct (nth_error (snodes c) i) as [n|]; [|discriminate].
     destruct (nth_error (nodes st) n) as [nd|]; [|discriminate].
     destruct (holder nd); [discriminate|]. inversion E; subst. cbn. apply Forall_upd; [exact H|same_sub Ec].
-  - apply otau_Some in E. destruct E as [E _]. apply option_map_Some in E. destruct E as [x [E ->]].
-    cbn. rewrite (take_blk_subs _ _ _ E). apply Forall_upd; [exact H|same_sub Ec].
+  - inversion E; subst. cbn. apply Forall_upd; [exact H|same_sub Ec].
   - destruct (nth_error (snodes c) i) as [n|]; [|discriminate].
     destruct (nth_error (nodes st) n) as [nd|]; [|discriminate].
     apply otau_Some in E. destruct E as [E _]. apply option_map_Some in E. destruct E as [x [E ->]].
